@@ -100,6 +100,13 @@ CHECKS = {
             'checked, and constants / plain literals must evaluate to exactly the original text. Gate on and off. '
             'Held on the strings observed.',
             'Trusted: CPython audit events and tokenize. Each shard is a fresh process (audit hooks are permanent).'),
+    'C03': ('runtime monitoring: differential observation slice vs whole-file translation on the independently computed '
+            'precedent closure; cycle workloads with a translation-stack monitor',
+            'Random layered dependency graphs using every reference kind are translated whole and, for EVERY formula cell, '
+            'from that cell as entry point; each cell of the closure (computed by vf/xlref\'s reference analysis, SUMIF derived '
+            'ranges included) is evaluated on both classes and compared. Cyclic workbooks (10 back-edge kinds x lengths 1-5 x '
+            'entry inside/outside/whole file) must end in E2PyclParserException. Held on the graphs observed.',
+            'Trusted: whole-file translation as the value reference; vf/xlref reference reader for the closure.'),
 }
 
 LEVELS = {}
